@@ -1,5 +1,6 @@
 import Driver.Codec
 import SfwModel.Model.ZipEquiv
+import SfwModel.Model.ZipperCF
 open Sfw Sfw.ZipEquiv
 namespace Driver
 
@@ -26,6 +27,28 @@ def decInstrView (s : String) : Option InstrView :=
            ops := ops }
   | _ => none
 
+/-- `;`-separated lists of `,`-separated naturals (an empty piece is the empty list) -/
+def decNatLists (s : String) : Option (List (List Nat)) :=
+  if s == "-" then some [] else
+  (s.splitOn ";").mapM (fun piece =>
+    if piece == "" then some [] else (piece.splitOn ",").mapM String.toNat?)
+
+/-- `blocks|succs|preds|phis` -/
+def decLayout (s : String) : Option ZipperCF.Layout :=
+  match s.splitOn "|" with
+  | [b, su, pr, ph] => do
+    let b ← decNatLists b; let su ← decNatLists su; let pr ← decNatLists pr
+    let ph ← (if ph == "" || ph == "-" then some [] else (ph.splitOn ",").mapM String.toNat?)
+    pure { blocks := b.toArray, succs := su.toArray, preds := pr.toArray, phis := ph }
+  | _ => none
+
+def decPairs (s : String) : Option ZipperCF.Pairs :=
+  if s == "-" || s == "" then some [] else
+  (s.splitOn ",").mapM (fun e =>
+    match e.splitOn ":" with
+    | [a, b] => do let a ← a.toNat?; let b ← b.toNat?; pure (a, b)
+    | _ => none)
+
 /-- `equiv <view a> <view b>` → 1 | 0 -/
 def zipEquivStep (fs : List String) : String :=
   match fs with
@@ -33,6 +56,13 @@ def zipEquivStep (fs : List String) : String :=
     match decInstrView a, decInstrView b with
     | some a, some b => boolStr (areEquivalent a b)
     | _, _ => "bad-op"
+  | ["enforce", old, new, pairs] =>
+    -- the surviving pairs of `enforceControlFlow`, in the order they were given
+    match decLayout old, decLayout new, decPairs pairs with
+    | some o, some n, some ps =>
+      let r := ZipperCF.enforce o n ps
+      if r.isEmpty then "-" else String.intercalate "," (r.map (fun p => toString p.1 ++ ":" ++ toString p.2))
+    | _, _, _ => "bad-op"
   | _ => "bad-op"
 
 end Driver
